@@ -35,7 +35,7 @@ TECHNIQUE = ('property-based differential testing (Hypothesis): one generated mo
              'text, and by WNTRSimulator; results compared on the report grid relative to the scale of each step')
 RULE = ('Generated network specs of vlib.netgen restricted to the common feature set (2-8 junctions, thorough to 16; '
         'loops, parallel links, 1-3 sources, cylindrical and volume-curve tanks, H-W pipes, CV pipes, initially closed '
-        'pipes, 1-/2-/3-point head pumps, power pumps, PRV/PSV/FCV/TCV in every initial status, multi-category demands, '
+        'pipes, 1-/2-/3-point head pumps, power pumps, PRV/PSV/FCV/TCV in every initial status, a TCV directly at a tank in one case in four with a tank, multi-category demands, '
         'demand and reservoir-head patterns, pattern start, start clock time, demand multiplier, DD and PDD) plus 0-3 '
         'controlled links, each driven by exactly one of: simple time controls, simple clock-time controls, a pair of '
         'tank-level controls, rules on SYSTEM TIME / CLOCKTIME, rules on TANK LEVEL (with ELSE, AND/OR, priorities). '
@@ -334,6 +334,17 @@ def _case(draw, tier):
         f['max_extra_links'] = 5
         f['durations'] = f['durations'] + [48 * 3600]
     net = draw(netgen.network(f))
+    if net['tanks'] and draw(st.integers(0, 3)) == 0:
+        # a throttle valve directly at a tank (EPANET refuses PRV/PSV/FCV there, error 219, but accepts a TCV)
+        tn = set(t['name'] for t in net['tanks'])
+        cands = [p for p in net['pipes'] if (p['a'] in tn) != (p['b'] in tn) and not p['cv'] and p['status'] == 'OPEN']
+        if cands:
+            p = draw(st.sampled_from(cands))
+            net['pipes'].remove(p)
+            net['valves'].append({'name': p['name'].replace('L', 'V'), 'a': p['a'], 'b': p['b'], 'type': 'TCV',
+                                  'diam': p['diam'], 'minor': draw(st.sampled_from([0.0, 0.0, 1.0])),
+                                  'setting': draw(st.sampled_from([1.0, 5.0, 50.0, 500.0])),
+                                  'status': draw(st.sampled_from(['ACTIVE', 'ACTIVE', 'ACTIVE', 'OPEN']))})
     fam = draw(st.sampled_from(['US', 'metric']))
     o = net['opts']
     ex_pre = []
@@ -1146,6 +1157,9 @@ def case_tags(case):
         tags.append('no_controls')
     if case.get('prelude'):
         tags.append('history:simulated_with_other_pump_curves_then_reassigned')
+    tn = set(t['name'] for t in net['tanks'])
+    if any(v['a'] in tn or v['b'] in tn for v in net['valves']):
+        tags.append('valve_at_tank')
     tags += list(case.get('excluded', ()))
     return tags
 
